@@ -8,6 +8,7 @@ use crate::run::{Params, Run};
 use crate::runq::tmp_file;
 use crate::util::{hex, Rng};
 use crate::e2e;
+use sqlgrep::executor::OutputFormat;
 
 const EXTRA_TABLES: &str = "CREATE TABLE zz1(line = '(x)', line[1] => a TEXT);\nCREATE TABLE aa2(line = '(y)(z)?', line[1] => b TEXT, line[2] => c TEXT);\nCREATE TABLE mm3({.q} => q INT);";
 
@@ -219,8 +220,325 @@ pub fn defs_relation(run: &mut Run, rng: &mut Rng, n: usize) {
     run.notes.push(format!("definition texts: {} base invocations (raw texts, every format), {} variants with unrelated extra CREATE TABLE statements before / after / between / interleaved / swapped — identical answer demanded —, and per base 5 variants outside the sentence (a name defined twice, a rejected extra statement, a comment swallowing the next statement) compared with Pipeline.runText only", n, pairs));
 }
 
+// ---------------------------------------------------------------------------------------------
+// "Only now() may differ between runs." (Props/C18Now.lean)
+//
+// The model has no clock (a statement with `now()` is answered `skip`), so this part is an oracle on the real code:
+// the same invocation is run several times AT LEAST A SECOND APART — in this process at the start and at the end of the
+// check, in a fresh child process of the harness, and (when ./check built it) as the real `sqlgrep` program twice.
+//  (1) projection statements: `now()` stands in the select list next to other columns. Status, line count, number of
+//      printed lines, row order and every OTHER cell must be identical; the `now()` cells must be timestamps. They are
+//      never compared: every `YYYY-MM-DD hh:mm:ss.mmm` in the output is replaced by a mark before the comparison (no
+//      other column of the table is a TIMESTAMP), so nothing here depends on when a second ends.
+//      The same statement with `now()` replaced by a fixed timestamp contains no `now()`: it must print the same marked
+//      output (only the `now()` cells changed), and it goes to the Lean model as a `batch` case.
+//  (2) statements that use `now()` only inside a comparison whose value is the same for decades
+//      (`now() > make_timestamp(2000,1,1,0,0,0,0)`): the output must be byte-identical between the runs, and equal to the
+//      output of the statement with the comparison replaced by its value (a `batch` case for the model).
+// The spacing is the only use of a clock in the harness: it waits until 1.1 s have passed since the first run; what is
+// compared never depends on it.
+// ---------------------------------------------------------------------------------------------
+
+/// expressions whose value is a TIMESTAMP read from the clock
+const NOW_EXPRS: &[&str] = &["now()", "NOW()", "Now( )", "greatest(now(), make_timestamp(2000,1,1,0,0,0,0))", "date_trunc('second', now())"];
+const FIXED_TS: &str = "make_timestamp(2000,1,1,0,0,0,0)";
+
+/// (statement, number of `now()` cells per printed record, every record has exactly that many)
+const NOW_PROJECTIONS: &[(&str, usize, bool)] = &[
+    ("SELECT k, {N}, v FROM t", 1, true),
+    ("SELECT {N}, k, w, s FROM t WHERE v > 0", 1, true),
+    ("SELECT k, v, {N} AS seen, w, {N}, r FROM t", 2, true),
+    ("SELECT input, {N} FROM t", 1, true),
+    ("SELECT k, v, {N} FROM t LIMIT 4", 1, true),
+    ("SELECT s, {N}, k FROM t WHERE w IS NOT NULL AND v < 40", 1, true),
+    ("SELECT k, COUNT(*), MAX({N}), SUM(v) FROM t GROUP BY k", 1, true),
+    ("SELECT k, w, MIN({N}), COUNT(v), MAX({N}) FROM t GROUP BY k, w", 2, true),
+    ("SELECT v, ARRAY_AGG(k), MAX({N}) FROM t GROUP BY v HAVING COUNT(*) > 1", 1, true),
+    ("SELECT MIN({N}), COUNT(*), MAX(v) FROM t", 1, false),   // over no admitted line MIN is NULL
+    ("SELECT t.k, y, {N}, t.v FROM t INNER JOIN u::'{J}' ON t.k = u.k", 1, true),
+    ("SELECT t.k, {N}, u.v, y FROM t OUTER JOIN u::'{J}' ON t.k = u.k", 1, true),
+];
+
+/// comparisons of the clock reading that hold / do not hold from 2000 to 2200
+const NOW_TRUE: &[&str] = &[
+    "now() > make_timestamp(2000,1,1,0,0,0,0)", "make_timestamp(2000,1,1,0,0,0,0) < NOW()", "now() >= make_timestamp(1999,12,31,23,59,59,0)",
+    "now() != make_timestamp(2000,1,1,0,0,0,0)", "NOT (now() < make_timestamp(2000,1,1,0,0,0,0))", "now() < make_timestamp(2200,1,1,0,0,0,0)",
+    "now() IS NOT NULL", "least(now(), make_timestamp(2000,1,1,0,0,0,0)) = make_timestamp(2000,1,1,0,0,0,0)",
+];
+const NOW_FALSE: &[&str] = &[
+    "now() < make_timestamp(2000,1,1,0,0,0,0)", "now() = make_timestamp(2000,1,1,0,0,0,0)", "now() IS NULL", "now() > make_timestamp(2200,1,1,0,0,0,0)",
+    "make_timestamp(2000,1,1,0,0,0,0) >= now()",
+];
+const NOW_CONSTANTS: &[&str] = &[
+    "SELECT k, v FROM t WHERE {C}",
+    "SELECT k, v, w FROM t WHERE v > 0 AND {C}",
+    "SELECT k, v FROM t WHERE {C} OR w > 3",
+    "SELECT k, CASE WHEN {C} THEN v ELSE w END FROM t",
+    "SELECT k, {C}, v FROM t",
+    "SELECT DISTINCT k, {C} FROM t",
+    "SELECT k, v FROM t WHERE {C} LIMIT 3",
+    "SELECT k, COUNT(*), SUM(v) FROM t WHERE {C} GROUP BY k",
+    "SELECT k, COUNT(*) FROM t GROUP BY k HAVING COUNT(*) > 0 AND {C}",
+    "SELECT k, BOOL_AND({C}), BOOL_OR({C}), COUNT(*) FROM t GROUP BY k",
+    "SELECT COUNT(*), SUM(CASE WHEN {C} THEN v ELSE 0 END) FROM t",
+    "SELECT t.k, y FROM t INNER JOIN u::'{J}' ON t.k = u.k WHERE {C}",
+];
+
+pub struct NowCase {
+    pub case: e2e::Case,
+    /// the same invocation without any `now()`: `now()` replaced by a fixed timestamp / the comparison by its value
+    pub fixed: e2e::Case,
+    /// `Some((cells, exact))` for a projection statement, `None` for a constant comparison
+    pub cells: Option<(usize, bool)>,
+    pub joined: Vec<u8>,
+}
+
+/// the deterministic list of `now()` invocations (a function of the seed and of the joined file's path only)
+pub fn now_cases(seed: u64, n: usize, join_path: &str) -> Vec<NowCase> {
+    let mut rng = Rng::new(seed ^ 0x18_0e0e);
+    let jlines: Vec<String> = (0..10).map(|_| gen_join_line(&mut rng)).collect();
+    let joined = join_lines(&jlines);
+    let mut out = Vec::new();
+    for i in 0..n {
+        let defs = format!("{}\n{}", MAIN_DEF, JOIN_DEF);
+        let (query, fixed, cells) = if i % 2 == 0 {
+            let (tpl, cells, exact) = *rng.pick(NOW_PROJECTIONS);
+            let e = *rng.pick(NOW_EXPRS);
+            (tpl.replace("{N}", e), tpl.replace("{N}", FIXED_TS), Some((cells, exact)))
+        } else {
+            let tpl = *rng.pick(NOW_CONSTANTS);
+            let holds = rng.chance(2, 3);
+            let c = *rng.pick(if holds { NOW_TRUE } else { NOW_FALSE });
+            (tpl.replace("{C}", c), tpl.replace("{C}", if holds { "true" } else { "false" }), None)
+        };
+        let nl = if rng.chance(1, 12) { 0 } else { 4 + rng.below(14) };
+        let lines = gen_input(&mut rng, nl, 15, false);
+        let nfiles = *rng.pick(&[1usize, 1, 2, 3]);
+        let mut cuts: Vec<usize> = (0..nfiles - 1).map(|_| rng.below(lines.len() + 1)).collect();
+        cuts.sort();
+        let mut files = Vec::new();
+        let mut last = 0;
+        for c in cuts { files.push(join_lines(&lines[last..c])); last = c; }
+        files.push(join_lines(&lines[last..]));
+        let format = match rng.below(3) { 0 => OutputFormat::Text, 1 => OutputFormat::Json, _ => OutputFormat::CSV(";".to_owned()) };
+        let single = rng.chance(1, 2);
+        let mk = |q: String| e2e::Case { defs: defs.clone(), query: q.replace("{J}", join_path), format: format.clone(), single, files: files.clone(),
+            joined: Some((join_path.to_owned(), Some(joined.clone()))), family: "c18-now" };
+        out.push(NowCase { case: mk(query), fixed: mk(fixed), cells, joined: joined.clone() });
+    }
+    out
+}
+
+fn now_outputs(cs: &[NowCase], join_path: &std::path::Path) -> Vec<String> {
+    cs.iter().map(|c| { std::fs::write(join_path, &c.joined).unwrap(); e2e::run_real(&c.case) }).collect()
+}
+
+/// `harness c18now <seed> <n>`: the answers of the `now()` invocations in a fresh process
+pub fn now_child(seed: u64, n: usize) {
+    let jpath = tmp_file(b"");
+    let cs = now_cases(seed, n, &jpath.display().to_string());
+    for o in now_outputs(&cs, &jpath) { println!("{}", o); }
+    let _ = std::fs::remove_file(jpath);
+}
+
+fn is_ts_at(b: &[u8], i: usize) -> bool {
+    const PAT: &[u8] = b"dddd-dd-dd dd:dd:dd.ddd";
+    if i + PAT.len() > b.len() { return false; }
+    PAT.iter().enumerate().all(|(j, p)| if *p == b'd' { b[i + j].is_ascii_digit() } else { b[i + j] == *p })
+}
+
+/// every `YYYY-MM-DD hh:mm:ss.mmm` replaced by a mark; the number of replacements
+pub fn mask_timestamps(s: &str) -> (String, usize) {
+    let b = s.as_bytes();
+    let mut out: Vec<u8> = Vec::with_capacity(b.len());
+    let (mut i, mut n) = (0usize, 0usize);
+    while i < b.len() {
+        if is_ts_at(b, i) { out.extend_from_slice(b"<TIMESTAMP>"); i += 23; n += 1; } else { out.push(b[i]); i += 1; }
+    }
+    (String::from_utf8_lossy(&out).to_string(), n)
+}
+
+fn unhex(h: &str) -> String {
+    let h = h.strip_prefix('x').unwrap_or(h);
+    let bytes: Vec<u8> = (0..h.len() / 2).filter_map(|i| u8::from_str_radix(&h[2 * i..2 * i + 2], 16).ok()).collect();
+    String::from_utf8_lossy(&bytes).to_string()
+}
+
+/// an answer of `e2e::run_real` as (everything but the printed lines, the printed lines)
+fn split_answer(a: &str) -> (String, Vec<String>) {
+    match a.split_once(" out=") {
+        Some((head, "")) => (head.to_owned(), Vec::new()),
+        Some((head, ls)) => (head.to_owned(), ls.split(',').map(unhex).collect()),
+        None => (a.to_owned(), Vec::new()),
+    }
+}
+
+/// the answer with every timestamp marked: what two runs of a projection statement must agree on
+fn masked_answer(a: &str) -> (String, Vec<String>) {
+    let (head, ls) = split_answer(a);
+    (head, ls.iter().map(|l| mask_timestamps(l).0).collect())
+}
+
+fn real_program_args(c: &e2e::Case, defs_path: &std::path::Path, files: &[std::path::PathBuf]) -> Vec<String> {
+    let mut args: Vec<String> = files.iter().map(|p| p.display().to_string()).collect();
+    args.push("-d".to_owned()); args.push(defs_path.display().to_string());
+    args.push("-c".to_owned()); args.push(c.query.clone());
+    args.push("--format".to_owned()); args.push(e2e::format_tag(&c.format).to_owned());
+    args
+}
+
+pub struct NowFirst {
+    started: std::time::Instant,
+    jpath: std::path::PathBuf,
+    cases: Vec<NowCase>,
+    first: Vec<String>,
+    /// the real program's standard output of the first `program.len()` invocations, with the files it was given
+    program: Vec<(std::path::PathBuf, Vec<std::path::PathBuf>, Option<String>)>,
+}
+
+/// the first run of every `now()` invocation (library in this process; the real program for the first few)
+pub fn now_begin(p: &Params) -> NowFirst {
+    let jpath = crate::runq::tmp_dir().join("c18-now-joined.txt");
+    let cases = now_cases(p.seed, p.n(72, 720), &jpath.display().to_string());
+    let started = std::time::Instant::now();
+    let first = now_outputs(&cases, &jpath);
+    let mut program = Vec::new();
+    if let Some(bin) = crate::cli::bin_path() {
+        for c in cases.iter().take(p.n(16, 120)) {
+            std::fs::write(&jpath, &c.joined).unwrap();
+            let defs_path = tmp_file(c.case.defs.as_bytes());
+            let files: Vec<std::path::PathBuf> = c.case.files.iter().map(|f| tmp_file(f)).collect();
+            let o = crate::cli::run_cli(&bin, &real_program_args(&c.case, &defs_path, &files), None, std::time::Duration::from_secs(30));
+            program.push((defs_path, files, if o.timed_out { None } else { Some(o.stdout) }));
+        }
+    }
+    NowFirst { started, jpath, cases, first, program }
+}
+
+fn now_desc(c: &e2e::Case) -> String {
+    format!("query={:?} format={} single={} files={:?} definitions={:?}", c.query, e2e::format_tag(&c.format), c.single,
+        c.files.iter().map(|f| String::from_utf8_lossy(f).to_string()).collect::<Vec<_>>(), c.defs)
+}
+
+/// two answers of one `now()` invocation, taken at least a second apart
+fn compare_now_runs(run: &mut Run, c: &NowCase, first: &str, later: &str, who: &str) {
+    run.oracle_checks += 1;
+    match c.cells {
+        Some(_) => {
+            if masked_answer(first) != masked_answer(later) {
+                run.fail(now_desc(&c.case), "differs-beyond-now-cells", format!("first run: {:?} ; {}: {:?} (timestamps are marked, not compared)", masked_answer(first), who, masked_answer(later)));
+            }
+        }
+        None => {
+            if first != later {
+                run.fail(now_desc(&c.case), "constant-now-comparison-differs-between-runs", format!("first run: {:?} ; {}: {:?}", split_answer(first), who, split_answer(later)));
+            }
+        }
+    }
+}
+
+/// the later runs and every comparison
+pub fn now_finish(run: &mut Run, p: &Params, nf: NowFirst) {
+    // at least 1.1 s after the first run started (the rest of the check has usually taken longer)
+    let apart = std::time::Duration::from_millis(1100);
+    let waited = nf.started.elapsed();
+    if waited < apart { std::thread::sleep(apart - waited); }
+    let n = nf.cases.len();
+    // a fresh process of the harness
+    let exe = std::env::current_exe().unwrap();
+    let child = std::process::Command::new(&exe).arg("c18now").arg(p.seed.to_string()).arg(n.to_string()).stdout(std::process::Stdio::piped()).spawn();
+    // this process again
+    let second = now_outputs(&nf.cases, &nf.jpath);
+    let child_lines: Option<Vec<String>> = match child.and_then(|c| c.wait_with_output()) {
+        Ok(o) => Some(String::from_utf8_lossy(&o.stdout).lines().map(|l| l.to_owned()).collect()),
+        Err(e) => { run.notes.push(format!("now() child failed to run: {}", e)); None }
+    };
+    for (i, c) in nf.cases.iter().enumerate() {
+        let first = &nf.first[i];
+        let (head, lines) = split_answer(first);
+        let kind = if c.cells.is_some() { "projection" } else { "constant" };
+        run.count(&format!("now:{}:{}:{}", kind, e2e::format_tag(&c.case.format), head.split(' ').next().unwrap_or("")));
+        compare_now_runs(run, c, first, &second[i], "second run in this process");
+        match child_lines.as_ref().and_then(|l| l.get(i)) {
+            Some(l) => compare_now_runs(run, c, first, l, "fresh process"),
+            None => if child_lines.is_some() { run.fail(now_desc(&c.case), "differs-across-processes", "the fresh process printed no answer for this invocation".to_owned()); },
+        }
+        // the `now()` cells are timestamps: the expected number in every record
+        if let Some((cells, exact)) = c.cells {
+            if head.starts_with("ok ") {
+                let csv = matches!(c.case.format, OutputFormat::CSV(_));
+                for (li, l) in lines.iter().enumerate() {
+                    if l.is_empty() || (csv && li == 0) { continue; }
+                    let found = mask_timestamps(l).1;
+                    run.oracle_checks += 1;
+                    if found > cells || (exact && found != cells) {
+                        run.fail(now_desc(&c.case), "now-cell-not-a-timestamp", format!("the record {:?} holds {} timestamps, the statement has {} now() cells", l, found, cells));
+                    }
+                }
+            }
+        }
+        // the same invocation without `now()`: only the now() cells / nothing may differ
+        std::fs::write(&nf.jpath, &c.joined).unwrap();
+        let fixed = e2e::run_real(&c.fixed);
+        run.oracle_checks += 1;
+        if c.cells.is_some() {
+            if masked_answer(first) != masked_answer(&fixed) {
+                run.fail(format!("{}\n  without now(): query={:?}", now_desc(&c.case), c.fixed.query), "now-changes-other-cells",
+                    format!("with now(): {:?} ; with a fixed timestamp in its place: {:?} (timestamps marked)", masked_answer(first), masked_answer(&fixed)));
+            }
+        } else if *first != fixed {
+            run.fail(format!("{}\n  without now(): query={:?}", now_desc(&c.case), c.fixed.query), "now-comparison-differs-from-its-value",
+                format!("with the comparison: {:?} ; with its value in its place: {:?}", split_answer(first), split_answer(&fixed)));
+        }
+        // the statement without `now()` is one the model runs: a correspondence case (text format, as `batch` cases are)
+        if matches!(c.fixed.format, OutputFormat::Text) && !c.fixed.single {
+            if let Ok(prepared) = prepare(&c.fixed.defs, &c.fixed.query) {
+                if let Some(case) = batch_case(&prepared, &c.joined, &c.fixed.files, None) {
+                    let r = run_files(&prepared, &c.fixed.files);
+                    run.case_with_desc(case, r.wire(), format!("now-fixed:{}:{}", kind, r.status), now_desc(&c.fixed));
+                }
+            }
+        }
+    }
+    // the real program, a second time
+    let mut programs = 0usize;
+    if let Some(bin) = crate::cli::bin_path() {
+        for (i, (defs_path, files, first_out)) in nf.program.iter().enumerate() {
+            let c = &nf.cases[i];
+            std::fs::write(&nf.jpath, &c.joined).unwrap();
+            let o = crate::cli::run_cli(&bin, &real_program_args(&c.case, defs_path, files), None, std::time::Duration::from_secs(30));
+            run.oracle_checks += 1;
+            programs += 1;
+            match (first_out, o.timed_out) {
+                (Some(a), false) => {
+                    let same = if c.cells.is_some() { mask_timestamps(a).0 == mask_timestamps(&o.stdout).0 } else { *a == o.stdout };
+                    if !same {
+                        run.fail(format!("sqlgrep {}", real_program_args(&c.case, defs_path, files).join(" ")), "program-output-differs-between-runs",
+                            format!("first run printed {:?} ; a second later {:?}{}", a, o.stdout, if c.cells.is_some() { " (timestamps are marked before the comparison)" } else { "" }));
+                    }
+                    // and what the program prints is what the library printed (up to the now() cells)
+                    let (head, lines) = masked_answer(&nf.first[i]);
+                    if head.starts_with("ok ") {
+                        let got = mask_timestamps(&o.stdout).0;
+                        let want: String = lines.iter().map(|l| format!("{}\n", l)).collect();
+                        if got != want { run.count("now:program-differs-from-library"); }
+                    }
+                }
+                _ => run.fail(now_desc(&c.case), "cli-hang", "the program did not finish within 30 s".to_owned()),
+            }
+        }
+    } else {
+        run.count("now:binary-not-available");
+    }
+    for (d, fs, _) in &nf.program { let _ = std::fs::remove_file(d); for f in fs { let _ = std::fs::remove_file(f); } }
+    let _ = std::fs::remove_file(&nf.jpath);
+    run.notes.push(format!("now(): {} invocations (half with now() in the select list next to other columns, half with now() only inside a comparison that is constant from 2000 to 2200; text / json / csv; 1-3 files; joins) run in this process twice and in a fresh process, at least 1.1 s after the first run ({} ms here); {} of them also as the real program, twice. Projection statements: status, line count, row order and every cell except the now() cells identical (timestamps are marked, never compared), the now() cells are timestamps, and replacing now() by a fixed timestamp changes nothing else; constant comparisons: byte-identical output, equal to the output with the comparison replaced by its value. The statements without now() are `batch` cases for the model", n, nf.started.elapsed().as_millis(), programs));
+}
+
 pub fn run(p: &Params) -> Run {
     let mut run = Run::new("C18");
+    // the first run of the `now()` invocations; the later runs come at the end of the check, at least a second later
+    let now_first = now_begin(p);
     let n = p.n(250, 3000);
     let procs = p.n(4, 32);
     let first = outputs(p.seed, n);
@@ -288,6 +606,7 @@ pub fn run(p: &Params) -> Run {
         }
     }
     defs_relation(&mut run, &mut Rng::new(p.seed ^ 0x1818_d3f5), p.n(50, 500));
+    now_finish(&mut run, p, now_first);
     run.notes.push("every 8th case uses tables and columns whose names differ only in letter case and statements spelling them a third way (exact name resolution: not-found errors; a hash-order fallback would differ between runs)".to_owned());
     run.notes.push(format!("{} cases executed twice in-process and once in each of {} fresh processes (fresh SipHash keys); half of the cases with three unrelated extra tables defined", n, procs));
     run
